@@ -16,10 +16,14 @@ ReadBad(r) ==
       [] cls = "unspec" -> {}
       [] cls = "accept" ->
            IF ~r.ok THEN {"rejectedGrammarText"}
-           ELSE CASE r.ty = "int" -> IF r.iv = IntVal(r.t) THEN {} ELSE {"wrongValue"}
-                  [] r.ty = "bool" -> IF r.bv = BoolVal(r.t) THEN {} ELSE {"wrongValue"}
+           ELSE \* the exact value, and a canonical text written back unchanged (the receiver was not fresh)
+                CASE r.ty = "int" -> (IF r.iv = IntVal(r.t) THEN {} ELSE {"wrongValue"})
+                                     \cup (IF IntText(IntVal(r.t)) = r.t /\ r.wb # r.t THEN {"writeBack"} ELSE {})
+                  [] r.ty = "bool" -> (IF r.bv = BoolVal(r.t) THEN {} ELSE {"wrongValue"})
+                                      \cup (IF r.wb # r.t THEN {"writeBack"} ELSE {})
                   [] r.ty = "float" -> IF r.fv = FloatVal(r.t) THEN {} ELSE {"wrongValue"}
-                  [] r.ty = "ts" -> IF r.ts = TsFields(r.t) THEN {} ELSE {"wrongValue"}
+                  [] r.ty = "ts" -> (IF r.ts = TsFields(r.t) THEN {} ELSE {"wrongValue"})
+                                    \cup (IF r.wb # r.t THEN {"writeBack"} ELSE {})
 
 WriteBad(r) ==
     CASE r.ty = "int" -> {x \in {"notCanonical"} : r.t # IntText(r.iv)} \cup {x \in {"roundTrip"} : ~r.ok \/ r.back # r.iv}
